@@ -50,12 +50,30 @@ func genAlnum(rng *rand.Rand, thorough bool) {
 		for _, l := range []int{7, 8, 9, 15, 16, 17, 24, 25, 33} {
 			sweepPositions(base[:l])
 		}
+		sweepPairs(base[:17])
 	}
 	// numeric strings around the widths of machine integers (parsers used as shortcuts behave differently above them)
 	for _, d := range []string{"9", "18446744073709551615", "18446744073709551616", "99999999999999999999", "89014103211118510720", "9223372036854775807",
 		"9223372036854775808", "4294967295", "4294967296", "340282366920938463463374607431768211455", "340282366920938463463374607431768211456",
 		"00000000000000000000", "000000000000000000000000000000000000001"} {
 		emit(d)
+	}
+}
+
+// sweepPairs emits s with every pair of ADJACENT positions replaced by every pair over a class-representative alphabet
+// (block-wise implementations leak carries and borrows between neighbouring bytes).
+func sweepPairs(s string) {
+	alpha := []byte{0x00, 0x1f, 0x20, 0x21, 0x2f, 0x30, 0x39, 0x3a, 0x40, 0x41, 0x5a, 0x5b, 0x60, 0x61, 0x7a, 0x7b, 0x7e, 0x7f, 0x80, 0xa0, 0xa1, 0xbf, 0xc0, 0xfe, 0xff, '-', '.'}
+	b := []byte(s)
+	for i := 0; i+1 < len(b); i++ {
+		o0, o1 := b[i], b[i+1]
+		for _, x := range alpha {
+			for _, y := range alpha {
+				b[i], b[i+1] = x, y
+				emit(string(b))
+			}
+		}
+		b[i], b[i+1] = o0, o1
 	}
 }
 
